@@ -1,6 +1,12 @@
 HOOK_COMMITS = []
 NOT_APPLICABLE = {}
 META = {
+    "C20": dict(
+        engine="E1 ipinfo + E7 metrics",
+        technique="Lean 4 theorems on the classification model (label decided by class alone, in the stated order; database consulted only for global-unicast addresses; one label per address across collectors) and decide over the regenerated metric table (provenance class of every label value, label names, value classes); differential correspondence with GetIPInfoFromAddr/IP and the real collectors; exposition scan",
+        text="Kernel-checked: XA / empty / XL / XD / ZZ / database answer are decided in that order by the class of the address; non-global addresses never reach the database; over the whole generated table no label value derives from a client address or from an unclassifiable expression, label names are the fixed set, values are numeric counts/durations.",
+        note="Proof over generated table + model; the provenance analysis (extractor) is trusted and backed by scanning the real exposition for every textual form of distinctive client addresses and ports.",
+    ),
     "C02": dict(
         engine="E3 tcp",
         technique="Lean 4 theorems on the stream framing model for ALL chunkings over an abstract AEAD (decode∘encode, chunking independence, replay of the first 50 bytes, nonce uniqueness, truncation) and on the relay model (target receives exactly the data after the header, then FIN); differential correspondence with the real handler over loopback sockets",
